@@ -17,27 +17,27 @@ Arguments NTEMP : simpl never.
 
 (* ---- list helpers -------------------------------------------------------------------- *)
 Lemma upd_length : forall T (l : list T) i v, length (upd l i v) = length l.
-Proof. induction l as [|h t rIH]; intros [|j] v; cbn; auto. Qed.
+Proof. induction l as [|h t gIH]; intros [|j] v; cbn; auto. Qed.
 
 Lemma nth_upd_same : forall T (l : list T) i v d, (i < length l)%nat -> nth i (upd l i v) d = v.
-Proof. induction l as [|h t rIH]; intros [|j] v d H; cbn in *; try (exfalso; exact (Nat.nlt_0_r _ H)); auto. apply rIH. apply Nat.succ_lt_mono. exact H. Qed.
+Proof. induction l as [|h t gIH]; intros [|j] v d H; cbn in *; try (exfalso; exact (Nat.nlt_0_r _ H)); auto. apply gIH. apply Nat.succ_lt_mono. exact H. Qed.
 
 Lemma nth_upd_other : forall T (l : list T) i j v d, i <> j -> nth j (upd l i v) d = nth j l d.
-Proof. induction l as [|h t rIH]; intros [|i] [|j] v d H; cbn; auto; try congruence. Qed.
+Proof. induction l as [|h t gIH]; intros [|i] [|j] v d H; cbn; auto; try congruence. Qed.
 
-Lemma map_upd : forall T rU (f : T -> rU) (l : list T) i v, map f (upd l i v) = upd (map f l) i (f v).
-Proof. induction l as [|h t rIH]; intros [|j] v; cbn; auto. f_equal. apply rIH. Qed.
+Lemma map_upd : forall T gU (f : T -> gU) (l : list T) i v, map f (upd l i v) = upd (map f l) i (f v).
+Proof. induction l as [|h t gIH]; intros [|j] v; cbn; auto. f_equal. apply gIH. Qed.
 
 (* ---- well-formed Python state ---------------------------------------------------------- *)
 Definition wf (s : pyregs) : Prop :=
   y_ba s < p16 /\ y_i s < p16 /\ y_x s < p20 /\ y_y s < p20 /\ y_u s < p20 /\ y_s s < p20 /\ y_pc s < p20 /\
   y_f s < p8 /\ length (y_t s) = NTEMP /\ Forall (fun v => v < p24) (y_t s).
 
-Definition valid (r : reg) : Prop := match r with rTEMP k => (k < NTEMP)%nat | _ => True end.
+Definition valid (r : reg) : Prop := match r with gTEMP k => (k < NTEMP)%nat | _ => True end.
 
 Definition width (r : reg) : N :=
   match r with
-  | rA | rB | rIL | rIH | rF => p8 | rBA | rI => p16 | rX | rY | rU | rS | rPC => p20 | rFC | rFZ => 2 | rTEMP _ => p24
+  | gA | gB | gIL | gIH | gF => p8 | gBA | gI => p16 | gX | gY | gU | gS | gPC => p20 | gFC | gFZ => 2 | gTEMP _ => p24
   end.
 
 Lemma wf_init : wf py_init.
@@ -46,7 +46,7 @@ Proof.
 Qed.
 
 Lemma Forall_upd : forall (P : N -> Prop) l i v, Forall P l -> P v -> Forall P (upd l i v).
-Proof. induction l as [|h t rIH]; intros [|j] v Hl Hv; cbn; auto; inversion Hl; subst; constructor; auto. Qed.
+Proof. induction l as [|h t gIH]; intros [|j] v Hl Hv; cbn; auto; inversion Hl; subst; constructor; auto. Qed.
 
 Lemma wf_set : forall s r v, wf s -> wf (py_set s r v).
 Proof.
@@ -71,11 +71,11 @@ Proof.
 Qed.
 
 Theorem py_overlap : forall s, wf s ->
-  py_get s rBA = py_get s rB * p8 + py_get s rA /\
-  py_get s rI = py_get s rIH * p8 + py_get s rIL /\
-  py_get s rFC = py_get s rF mod 2 /\
-  py_get s rFZ = (py_get s rF / 2) mod 2 /\
-  (forall r, py_get s r < width r \/ match r with rTEMP k => (NTEMP <= k)%nat | _ => False end).
+  py_get s gBA = py_get s gB * p8 + py_get s gA /\
+  py_get s gI = py_get s gIH * p8 + py_get s gIL /\
+  py_get s gFC = py_get s gF mod 2 /\
+  py_get s gFZ = (py_get s gF / 2) mod 2 /\
+  (forall r, py_get s r < width r \/ match r with gTEMP k => (NTEMP <= k)%nat | _ => False end).
 Proof.
   intros [ba i x y u sp pc f t] (H1 & H2 & H3 & H4 & H5 & H6 & H7 & H8 & H9 & H10).
   cbn in *. repeat split; unp; try lia.
@@ -84,12 +84,12 @@ Proof.
   rewrite Forall_forall in H10. apply H10. apply nth_In. rewrite H9. exact Hlt.
 Qed.
 
-Theorem py_il_clears_ih : forall s v, py_get (py_set s rIL v) rIH = 0 /\ py_get (py_set s rIL v) rIL = v mod p8.
+Theorem py_il_clears_ih : forall s v, py_get (py_set s gIL v) gIH = 0 /\ py_get (py_set s gIL v) gIL = v mod p8.
 Proof. intros [ba i x y u sp pc f t] v. cbn. unp. split; lia. Qed.
 
 (* which stored field a register lives in *)
 Definition base (r : reg) : reg :=
-  match r with rA | rB | rBA => rBA | rIL | rIH | rI => rI | rFC | rFZ | rF => rF | r => r end.
+  match r with gA | gB | gBA => gBA | gIL | gIH | gI => gI | gFC | gFZ | gF => gF | r => r end.
 
 Theorem py_frame : forall s r r' v, base r <> base r' -> py_get (py_set s r v) r' = py_get s r'.
 Proof.
@@ -101,10 +101,10 @@ Qed.
 
 (* inside one base register: the other part is untouched *)
 Theorem py_frame_parts : forall s v, wf s ->
-  py_get (py_set s rA v) rB = py_get s rB /\ py_get (py_set s rB v) rA = py_get s rA /\
-  py_get (py_set s rIH v) rIL = py_get s rIL /\
-  py_get (py_set s rFC v) rFZ = py_get s rFZ /\ py_get (py_set s rFZ v) rFC = py_get s rFC /\
-  py_get (py_set s rFC v) rF / 4 = py_get s rF / 4 /\ py_get (py_set s rFZ v) rF / 4 = py_get s rF / 4.
+  py_get (py_set s gA v) gB = py_get s gB /\ py_get (py_set s gB v) gA = py_get s gA /\
+  py_get (py_set s gIH v) gIL = py_get s gIL /\
+  py_get (py_set s gFC v) gFZ = py_get s gFZ /\ py_get (py_set s gFZ v) gFC = py_get s gFC /\
+  py_get (py_set s gFC v) gF / 4 = py_get s gF / 4 /\ py_get (py_set s gFZ v) gF / 4 = py_get s gF / 4.
 Proof.
   intros [ba i x y u sp pc f t] v (H1 & H2 & H3 & H4 & H5 & H6 & H7 & H8 & H9 & H10).
   cbn in *. unfold set_lo, set_hi, set_b0, set_b1. unp. repeat split; lia.
@@ -133,27 +133,27 @@ Lemma py_apply_temps_fields : forall l s k,
   y_ba s' = y_ba s /\ y_i s' = y_i s /\ y_x s' = y_x s /\ y_y s' = y_y s /\ y_u s' = y_u s /\
   y_s s' = y_s s /\ y_pc s' = y_pc s /\ y_f s' = y_f s.
 Proof.
-  induction l as [|v t rIH]; intros s k; cbn; [repeat split; reflexivity|].
-  destruct (rIH (py_set s (rTEMP k) v) (Datatypes.S k)) as (a&b&c&d&e&f&g&h).
+  induction l as [|v t gIH]; intros s k; cbn; [repeat split; reflexivity|].
+  destruct (gIH (py_set s (gTEMP k) v) (Datatypes.S k)) as (a&b&c&d&e&f&g&h).
   destruct s; cbn in *. repeat split; assumption.
 Qed.
 
 Lemma y_t_set_temp : forall s k v,
-  y_t (py_set s (rTEMP k) v) = if Nat.ltb k NTEMP then upd (y_t s) k (v mod p24) else y_t s.
+  y_t (py_set s (gTEMP k) v) = if Nat.ltb k NTEMP then upd (y_t s) k (v mod p24) else y_t s.
 Proof. intros [ba i x y u sp pc f t] k v. reflexivity. Qed.
 
 Lemma py_apply_temps_len : forall l s k, length (y_t s) = NTEMP -> length (y_t (py_apply_temps s k l)) = NTEMP.
 Proof.
-  induction l as [|v t rIH]; intros s k H; cbn [py_apply_temps]; [exact H|].
-  apply rIH. rewrite y_t_set_temp. destruct (Nat.ltb k NTEMP); [rewrite upd_length|]; exact H.
+  induction l as [|v t gIH]; intros s k H; cbn [py_apply_temps]; [exact H|].
+  apply gIH. rewrite y_t_set_temp. destruct (Nat.ltb k NTEMP); [rewrite upd_length|]; exact H.
 Qed.
 
 Lemma py_apply_temps_nth_out : forall l s k j,
   (j < k \/ k + length l <= j)%nat ->
   nth j (y_t (py_apply_temps s k l)) 0 = nth j (y_t s) 0.
 Proof.
-  induction l as [|v t rIH]; intros s k j H; cbn [py_apply_temps]; [reflexivity|].
-  rewrite rIH by (cbn [length] in H; lia).
+  induction l as [|v t gIH]; intros s k j H; cbn [py_apply_temps]; [reflexivity|].
+  rewrite gIH by (cbn [length] in H; lia).
   rewrite y_t_set_temp. destruct (Nat.ltb k NTEMP); [|reflexivity].
   apply nth_upd_other. cbn [length] in H. lia.
 Qed.
@@ -163,14 +163,14 @@ Lemma py_apply_temps_nth_in : forall l s k j,
   (k <= j < k + length l)%nat ->
   nth j (y_t (py_apply_temps s k l)) 0 = nth (j - k) l 0.
 Proof.
-  induction l as [|v t rIH]; intros s k j Hlen Hk Hf Hj; cbn [length] in *; [lia|].
+  induction l as [|v t gIH]; intros s k j Hlen Hk Hf Hj; cbn [length] in *; [lia|].
   cbn [py_apply_temps]. inversion Hf as [|? ? Hv Ht]; subst.
   destruct (Nat.eq_dec j k) as [->|Hne].
   - rewrite py_apply_temps_nth_out by lia.
     rewrite y_t_set_temp. destruct (Nat.ltb_spec k NTEMP) as [Hl|Hl]; [|lia].
     rewrite nth_upd_same by (rewrite Hlen; exact Hl).
     rewrite Nat.sub_diag. cbn [nth]. unp. lia.
-  - rewrite rIH; try assumption; try lia.
+  - rewrite gIH; try assumption; try lia.
     + replace (j - k)%nat with (Datatypes.S (j - Datatypes.S k)) by lia. reflexivity.
     + rewrite y_t_set_temp. destruct (Nat.ltb k NTEMP); [rewrite upd_length|]; exact Hlen.
 Qed.
@@ -181,7 +181,7 @@ Proof.
   intros s r Hwf Hv.
   pose proof Hwf as (H1 & H2 & H3 & H4 & H5 & H6 & H7 & H8 & H9 & H10).
   unfold py_apply.
-  set (s8 := py_set (py_set (py_set (py_set (py_set (py_set (py_set (py_set py_init rPC _) rBA _) rI _) rX _) rY _) rU _) rS _) rF _).
+  set (s8 := py_set (py_set (py_set (py_set (py_set (py_set (py_set (py_set py_init gPC _) gBA _) gI _) gX _) gY _) gU _) gS _) gF _).
   destruct (py_apply_temps_fields (sn_t (py_capture s)) s8 0) as (a&b&c&d&e&f&g&h).
   assert (Hs8 : y_ba s8 = y_ba s /\ y_i s8 = y_i s /\ y_x s8 = y_x s /\ y_y s8 = y_y s /\ y_u s8 = y_u s /\
                 y_s s8 = y_s s /\ y_pc s8 = y_pc s /\ y_f s8 = y_f s /\ y_t s8 = repeat 0 NTEMP).
@@ -189,12 +189,12 @@ Proof.
     repeat split; first [reflexivity | lia]. }
   destruct Hs8 as (a'&b'&c'&d'&e'&f'&g'&h'&t').
   destruct r; cbn [py_get]; try congruence.
-  (* rTEMP *)
+  (* gTEMP *)
   cbn in Hv.
   rewrite py_apply_temps_nth_in.
   - cbn [py_capture sn_t]. rewrite Nat.sub_0_r.
-    rewrite (nth_indep _ 0 (py_get s (rTEMP 0))) by (rewrite map_length, seq_length; exact Hv).
-    rewrite (map_nth (fun k => py_get s (rTEMP k)) (seq 0 NTEMP) 0%nat i).
+    rewrite (nth_indep _ 0 (py_get s (gTEMP 0))) by (rewrite map_length, seq_length; exact Hv).
+    rewrite (map_nth (fun k => py_get s (gTEMP k)) (seq 0 NTEMP) 0%nat i).
     rewrite seq_nth by exact Hv. reflexivity.
   - rewrite t'. apply repeat_length.
   - cbn [py_capture sn_t]. rewrite map_length, seq_length. lia.
@@ -207,9 +207,9 @@ Qed.
 (* ---- blob round trip ------------------------------------------------------------------- *)
 Lemma of_le_le_bytes : forall n v, v < 256 ^ N.of_nat n -> of_le (le_bytes n v) = v.
 Proof.
-  induction n as [|m rIH]; intros v Hv.
+  induction n as [|m gIH]; intros v Hv.
   - cbn in *. lia.
-  - cbn [le_bytes of_le]. rewrite rIH.
+  - cbn [le_bytes of_le]. rewrite gIH.
     + unp. lia.
     + rewrite Nat2N.inj_succ, N.pow_succ_r' in Hv. unp. nia.
 Qed.
